@@ -235,10 +235,20 @@ def written(number):
     return Fraction(number)
 
 
+def as_number(result, *operands):
+    """ The exact result as a whole number - when the operands were whole numbers, or when it is a whole
+    number that no double holds (beyond 2^53) - else as the nearest double """
+    if result.denominator == 1 and (abs(result) > 2**53 or not any(isinstance(x, float) for x in operands)):
+        return int(result)
+    return float(result)
+
+
 def multiple_of(count, unit):
     """ count * unit (exact): a whole number for a whole unit, else the nearest double """
     result = count * unit
-    return int(result) if unit.denominator == 1 else float(result)
+    if unit.denominator == 1:
+        return int(result)
+    return as_number(result, 0.0)
 
 
 def round_in_magnitude(number, digits, up):
@@ -349,11 +359,11 @@ def QUOTIENT(numerator, denominator):
         return error.VALUE
     if denominator == 0:
         return error.DIV_ZERO
-    if isinstance(numerator, int) and isinstance(denominator, int):
-        # whole numbers divide exactly (the float quotient of 9007199254740993 by 1 is ...992)
-        quotient = abs(numerator) // abs(denominator)
-        return quotient if (numerator < 0) == (denominator < 0) else -quotient
-    return int(numerator / denominator)
+    # in exact arithmetic: the float quotient of 9007199254740993 by 1 is ...992, and that of
+    # 0.8999999999999999 by 0.3 is 3
+    quotient = abs(written(numerator)) / abs(written(denominator))
+    quotient = quotient.numerator // quotient.denominator
+    return quotient if (numerator < 0) == (denominator < 0) else -quotient
 
 
 @dispatcher.register_for('MOD')
@@ -366,8 +376,10 @@ def MOD(numerator, denominator):
         return denominator
     if denominator == 0:
         return error.DIV_ZERO
-    modulus = abs(numerator % denominator)
-    return modulus if denominator > 0 else -modulus
+    # number - divisor * floor(number / divisor) in exact arithmetic (see QUOTIENT)
+    number, divisor = written(numerator), written(denominator)
+    quotient = number / divisor
+    return as_number(number - divisor * (quotient.numerator // quotient.denominator), numerator, denominator)
 
 
 @dispatcher.register_for('RADIANS')
